@@ -4,6 +4,7 @@ import (
 	"bytes"
 	"encoding/binary"
 	"fmt"
+	"reflect"
 	"sort"
 
 	"verifharness/ref"
@@ -128,7 +129,39 @@ func RoundTrip(b *Binding, v *ref.Vals) *vk.Violation {
 	if s.Hdr != ref.HdrNone && int(b.HeaderLength(q)) != len(img) {
 		return vk.Violf(s.ID()+"/decode/header-length", c, "%s: decoded header length %d, image has %d octets", s.ID(), b.HeaderLength(q), len(img))
 	}
+	// The caller is done with both results and owns them: the image goes back to its buffer pool, the
+	// decoded value is edited in place. Nothing the library hands out later may be affected (a value
+	// served from a shared table or a memo shows up as a wrong answer in a later evaluation).
+	OverwriteOwned(q)
+	vk.Overwrite(img)
 	return nil
+}
+
+// OverwriteOwned overwrites every byte slice a decoded value holds (bodies, optional-parameter values):
+// the value belongs to the caller.
+func OverwriteOwned(c Codec) {
+	rv := reflect.ValueOf(c).Elem()
+	for i := 0; i < rv.NumField(); i++ {
+		f := rv.Field(i)
+		if !rv.Type().Field(i).IsExported() {
+			continue
+		}
+		switch {
+		case f.Kind() == reflect.Slice && f.Type().Elem().Kind() == reflect.Uint8:
+			vk.ScribbleSpare(f.Bytes())
+			vk.Overwrite(f.Bytes())
+		case f.Kind() == reflect.Map:
+			it := f.MapRange()
+			for it.Next() {
+				if m := it.Value().MethodByName("Value"); m.IsValid() {
+					if out := m.Call(nil); len(out) == 1 && out[0].Kind() == reflect.Slice && out[0].Type().Elem().Kind() == reflect.Uint8 {
+						vk.ScribbleSpare(out[0].Bytes())
+						vk.Overwrite(out[0].Bytes())
+					}
+				}
+			}
+		}
+	}
 }
 
 // Overlong is the second clause of C01: field `name` of v holds more octets
